@@ -257,7 +257,7 @@ impl Check for C20 {
                             let mut sig = BTreeMap::new();
                             sig.insert("build".to_string(), name.to_string());
                             sig.insert("class".to_string(), s.split(' ').next().unwrap_or("").to_string());
-                            ctx.violation(Violation { property: "C20".into(), rule: "all-feature-sets-agree".into(), sig, unit: unit.clone(), case: json!({"definition": i, "opts": js[*i].opts, "argv": argv, "build": name}), expected: format!("all features: {}", mine_s), observed: format!("{}: {}", name, s), size: argv.len() * 1000 });
+                            ctx.violation(Violation { property: "C20".into(), rule: "all-feature-sets-agree".into(), sig, unit: unit.clone(), case: json!({"definition": i, "tier": ctx.tier.name(), "seed": ctx.seed, "opts": js[*i].opts, "argv": argv, "build": name}), expected: format!("all features: {}", mine_s), observed: format!("{}: {}", name, s), size: argv.len() * 1000 });
                             reported = true;
                             break;
                         }
@@ -266,7 +266,7 @@ impl Check for C20 {
                 if !reported {
                     let mut sig = BTreeMap::new();
                     sig.insert("build".to_string(), name.to_string());
-                    ctx.violation(Violation { property: "C20".into(), rule: "all-feature-sets-agree".into(), sig, unit: unit.clone(), case: json!({"definition": i, "opts": js[*i].opts, "build": name}), expected: "identical outcome streams".into(), observed: "digest differs but no differing line was found (different number of observations)".into(), size: 0 });
+                    ctx.violation(Violation { property: "C20".into(), rule: "all-feature-sets-agree".into(), sig, unit: unit.clone(), case: json!({"definition": i, "tier": ctx.tier.name(), "seed": ctx.seed, "opts": js[*i].opts, "build": name}), expected: "identical outcome streams".into(), observed: "digest differs but no differing line was found (different number of observations)".into(), size: 0 });
                 }
             }
         }
@@ -277,41 +277,35 @@ impl Check for C20 {
         }
     }
     fn replay(&self, _unit: &Value, case: &Value, ctx: &mut Ctx) {
-        // re-run one definition in this build and in the named alternative build
-        let i = case["definition"].as_u64().unwrap_or(0) as usize;
+        // re-run one definition (identified by tier, seed and index) in this build and in the
+        // named alternative build
+        let idx = case["definition"].as_u64().unwrap_or(0) as usize;
         let name = case["build"].as_str().unwrap_or("none").to_string();
-        let js = jobs(ctx.tier, ctx.seed);
+        let tier = Tier::parse(case["tier"].as_str().unwrap_or("quick"));
+        let seed = case["seed"].as_u64().unwrap_or(0);
         ctx.s.evaluations += 1;
-        // the recorded seed / tier may differ; use the recorded definition itself
-        let opts: Opts = match serde_json::from_value(case["opts"].clone()) {
-            Ok(o) => o,
-            Err(_) => return,
-        };
-        let idx = js.iter().position(|j| j.opts == opts);
-        let (tier, idx) = match idx {
-            Some(ix) => (ctx.tier, ix),
-            None => {
-                let jt = jobs(Tier::Thorough, ctx.seed);
-                match jt.iter().position(|j| j.opts == opts) {
-                    Some(ix) => (Tier::Thorough, ix),
-                    None => return,
-                }
-            }
-        };
-        let _ = i;
-        let js = jobs(tier, ctx.seed);
+        let js = jobs(tier, seed);
+        if idx >= js.len() {
+            return;
+        }
         let mut full: Vec<(Vec<Tok>, String)> = vec![];
         observe(&js[idx], &mut |argv, s| full.push((argv.to_vec(), s.replace('\n', "\\n"))));
-        let dump = run_alt(&name, &["c20-dump".into(), tier.name().into(), ctx.seed.to_string(), idx.to_string()]).unwrap_or_default();
-        for (k, l) in dump.lines().enumerate() {
+        let dump = run_alt(&name, &["c20-dump".into(), tier.name().into(), seed.to_string(), idx.to_string()]).unwrap_or_default();
+        let lines: Vec<&str> = dump.lines().collect();
+        if lines.len() != full.len() {
+            let mut sig = BTreeMap::new();
+            sig.insert("build".to_string(), name.clone());
+            ctx.violation(Violation { property: "C20".into(), rule: "all-feature-sets-agree".into(), sig, unit: Value::Null, case: case.clone(), expected: format!("{} observations", full.len()), observed: format!("{} observations", lines.len()), size: 0 });
+            return;
+        }
+        for (k, l) in lines.iter().enumerate() {
             let (a, s) = l.split_once('\t').unwrap_or((l, ""));
-            if let Some((argv, mine_s)) = full.get(k) {
-                if serde_json::to_string(argv).unwrap() != a || mine_s != s {
-                    let mut sig = BTreeMap::new();
-                    sig.insert("build".to_string(), name.clone());
-                    ctx.violation(Violation { property: "C20".into(), rule: "all-feature-sets-agree".into(), sig, unit: Value::Null, case: case.clone(), expected: mine_s.clone(), observed: s.to_string(), size: 0 });
-                    return;
-                }
+            let (argv, mine_s) = &full[k];
+            if serde_json::to_string(argv).unwrap() != a || mine_s != s {
+                let mut sig = BTreeMap::new();
+                sig.insert("build".to_string(), name.clone());
+                ctx.violation(Violation { property: "C20".into(), rule: "all-feature-sets-agree".into(), sig, unit: Value::Null, case: case.clone(), expected: mine_s.clone(), observed: s.to_string(), size: 0 });
+                return;
             }
         }
     }
